@@ -41,7 +41,8 @@ pub fn gen_transport(r: &mut Rng) -> Vec<Tree> {
     let mut pl = Payloads::new();
     let sizes = [0usize, 1, 50, 1199, 1200, 1201, 2500, 4000];
     let steps = r.range(20, 70);
-    for _ in 0..steps {
+    let focus: Option<usize> = if r.chance(1, 3) { Some(*r.pick(&[18usize, 19, 12, 13, 14])) } else { None };
+    for step in 0..steps {
         let k = r.below(nclients);
         let id = ids[k as usize];
         let ch = *r.pick(&[0u64, 1, 2, 2]);
@@ -49,7 +50,11 @@ pub fn gen_transport(r: &mut Rng) -> Vec<Tree> {
             if r.chance(4, 5) { (0, 0, 0) } else { (r.range(1, 4), r.below(11000), r.below(256)) }
         };
         let w: [u32; 21] = [18, 5, 5, 10, 10, 5, 5, 8, 8, 6, 6, 5, 3, 3, 2, 2, 1, 2, 3, 2, 2];
-        match r.weighted(&w) {
+        let case = match focus {
+            Some(f) if step == 4 || step == 15 => f,
+            _ => r.weighted(&w),
+        };
+        match case {
             0 => {
                 let dt = *r.pick(&[16 * MS, 100 * MS, 250 * MS, 250 * MS, SEC]);
                 ops.push(l(vec![n(260u16), n(k), n(r.range(1, 4)), n(dt)]));
